@@ -91,6 +91,15 @@ CLAIMED["C14"] = (
 GEN_TECH = "Coq proof about an executable semantics of cff.Flow (what a directive computes as a function of what each user function does) + correspondence: generated programs compiled by the real cff and executed under scenario tables, compared call by call with the extracted model"
 GEN_NOTE = ("Trusted: Coq kernel; extraction + driver; the program generator (the abstract flow is the model's input, its Go rendering the tool's input) and the harness stubs; "
             "Go compiler/runtime. The theorems are about the model; the generated code is tied to it by sampled executions (seeded), not by proof.")
+CLAIMED["C02"] = (
+    "Coq proof of schedule independence (confluence by invariant induction) over an operational model of the generated program: one job per task/predicate function with the generator's Dependencies, shared variables per type and flags per predicate + correspondence: Dependencies lists parsed from the generated code must equal the model's job graph, and generated programs executed under scenario tables must equal the extracted model call by call",
+    "For every flow with unique providers, every scenario and every execution the scheduler can produce (jobs at most once, only after their dependencies returned nil - what C01/C07 prove of the "
+    "scheduler for every DAG, limit and interleaving): a job makes the same calls with the same arguments, assigns the same values and returns the same result in every execution in which it runs "
+    "(C02_schedule_independent), every argument is the value the unique provider of its type assigned, already assigned when read (C02_arguments), each function is called at most once (C02_once), "
+    "Results hold the same provider values in every execution where all jobs returned nil (C02_results), a task function is called only after its predicate returned true (C02_predicate_gate). "
+    "Partial on one clause, labelled so: independence of the listing order of the tasks is exercised (the generator shuffles tasks) but not proved. Tie: job graph of every generated function vs jdeps; "
+    "calls with argument terms, results, returned error of every execution vs the model; the operational and the denotational model are cross-checked on every case.",
+    GEN_NOTE, "DESIGN.md §7 C02")
 CLAIMED["C11"] = (GEN_TECH,
     "For every flow, scenario, task and valuation: predicate false => the task function is not called, its outputs are the zero values and it cannot fail the flow "
     "(C11_false_*); the function is invoked only if there is no predicate or it returned true (C11_invoked_only_if_true); the predicate is called with exactly the values of "
